@@ -169,7 +169,8 @@ def c06(tier, seed):
     hows = ("new", "newB", "from", "default", "box", "boxB", "unique", "uniqueB")
     return [stage(CT.ctor_stage, "C06", tier, "ctor_honest_" + tier[0], ["fhi", "thin", "collect", "vec", "slice", "str"], False),
             sized("C06", tier, "sized_ctor_" + tier[0], BASE + ["Shareable", "IntoInner", "TryUnwrap"], 3 if tier == "quick" else 4, 3, 1, hows=hows),
-            lay("C06", tier, "layout_matrix_" + tier[0])]
+            lay("C06", tier, "layout_matrix_" + tier[0]),
+            stage(CT.ctor_stage, "C06", tier, "zst_" + tier[0], ["zst"], True, only_cats=["drops", "leak", "layout", "panicked", "crash"])]
 
 
 def c07(tier, seed):
@@ -262,7 +263,7 @@ def c01(tier, seed):
                 nested_frames("C01", tier), thin_lengths("C01", tier), inj("C01", tier),
                 # every release path of every shape returns the block once; real ArcSwap traffic keeps counts exact
                 lay("C01", tier, "layout_matrix_q"),
-                stage(CT.ctor_stage, "C01", tier, "release_q", ["release", "union_drop"], True, only_cats=["frees", "drops", "baddrop", "leak", "crash", "panicked"])] + swaps("C01", tier, seed) + long_walks("C01", tier, seed)
+                stage(CT.ctor_stage, "C01", tier, "release_q", ["release", "union_drop", "zst"], True, only_cats=["frees", "drops", "baddrop", "leak", "crash", "panicked"])] + swaps("C01", tier, seed) + long_walks("C01", tier, seed)
     return [sized("C01", tier, "sized_life_t", BASE + CONV + BORROW + ["TryUnique"], 4, 2, 2),
             sized("C01", tier, "sized_life_t5", BASE + CONV_CORE + ["Enter", "Exit"], 5, 2, 1, hows=("new", "newB")),
             walks("C01", tier, seed),
@@ -271,7 +272,7 @@ def c01(tier, seed):
             sized("C01", tier, "sized_life_nostd_t", BASE + CONV + BORROW + UNIQ + COW + UNWRAP, 3, 2, 1, harness_cfg="b"),
             mm("C01", tier, "mm_clone_drop_t", [("c01_2x3", ["clone", "read", "drop"], 2, 3, 2, False), ("c01_3x3", ["clone", "read", "drop"], 3, 3, 1, False)]), inj("C01", tier),
             lay("C01", tier, "layout_matrix_t"),
-            stage(CT.ctor_stage, "C01", tier, "release_t", ["release", "union_drop"], True, only_cats=["frees", "drops", "baddrop", "leak", "crash", "panicked"])] + swaps("C01", tier, seed) + long_walks("C01", tier, seed)
+            stage(CT.ctor_stage, "C01", tier, "release_t", ["release", "union_drop", "zst"], True, only_cats=["frees", "drops", "baddrop", "leak", "crash", "panicked"])] + swaps("C01", tier, seed) + long_walks("C01", tier, seed)
 
 
 def c03(tier, seed):
@@ -331,13 +332,15 @@ def c09(tier, seed):
                 mm("C09", tier, "mm_unwrap_q", [("c09_2x3", mops, 2, 3, 2, False), ("c09_3x2", mops, 3, 2, 1, False)]),
                 tr("C09", tier, "threads_q", seed), inj("C09", tier),
             # unwrapping every payload shape (zero-sized, over-aligned, large) returns the block with its layout
-            lay("C09", tier, "layout_matrix_" + tier[0])] + swaps("C09", tier, seed, hows=("init",))
+            lay("C09", tier, "layout_matrix_" + tier[0]),
+            stage(CT.ctor_stage, "C09", tier, "zst_" + tier[0], ["zst"], True, only_cats=["drops", "leak", "layout", "panicked", "crash"])] + swaps("C09", tier, seed, hows=("init",))
     return [sized("C09", tier, "sized_unwrap_t", ops, 4, 2, 1),
             mm("C09", tier, "mm_unwrap_t", [("c09_2x4", mops, 2, 4, 2, False), ("c09_3x2", mops, 3, 2, 2, False),
                                             ("c09_3x3", ["try_unwrap", "unwrap_or_clone", "drop"], 3, 3, 1, False)]),
             tr("C09", tier, "threads_t", seed), inj("C09", tier),
             # unwrapping every payload shape (zero-sized, over-aligned, large) returns the block with its layout
-            lay("C09", tier, "layout_matrix_" + tier[0])] + swaps("C09", tier, seed, hows=("init",))
+            lay("C09", tier, "layout_matrix_" + tier[0]),
+            stage(CT.ctor_stage, "C09", tier, "zst_" + tier[0], ["zst"], True, only_cats=["drops", "leak", "layout", "panicked", "crash"])] + swaps("C09", tier, seed, hows=("init",))
 
 
 def c12(tier, seed):
